@@ -19,7 +19,7 @@ MCOut == <<"A","out">>
 D7 == DirNode(755, 1)
 
 MCNameOrder == <<"", ".", "..", "..n", ".git", ".terraform", ".terraformignore", "A", "a", "a+b", "aab", "ab", "b", "cw", "e", "ef", "ext", "ext2",
-                 "f", "fifo", "g", "k", "l", "la", "lb", "m", "modules", "out", "p", "q", "ra", "rl", "rl2", "s", "s.n", "src", "srcx", "t", "x", "y", "z">>
+                 "f", "fifo", "g", "k", "l", "la", "lb", "lc", "ld", "m", "modules", "out", "p", "q", "ra", "rl", "rl2", "s", "s.n", "src", "srcx", "t", "x", "y", "z">>
 MCNameChars == [n \in { MCNameOrder[i] : i \in DOMAIN MCNameOrder } |->
    CASE n = ".git" -> DotGit [] n = ".terraform" -> DotTerraform [] n = "modules" -> Modules
      [] n = ".terraformignore" -> <<".","t","e","r","r","a","f","o","r","m","i","g","n","o","r","e">>
@@ -37,6 +37,7 @@ ArenaBase ==
   @@ (<<"A","ef">> :> FileNode(600, 4, 5))
   @@ (<<"A","fifo">> :> FifoNode(644, 1))
   @@ (<<"A","la">> :> LinkNode(<<"lb">>)) @@ (<<"A","lb">> :> LinkNode(<<"la">>))
+  @@ (<<"A","lc">> :> LinkNode(<<"","A","ld">>)) @@ (<<"A","ld">> :> LinkNode(<<"","A","lc">>))      \* a cycle with absolute targets
   @@ (<<"A","cw">> :> D7) @@ (<<"A","cw","rl">> :> LinkNode(<<"..","src">>)) @@ (<<"A","cw","rl2">> :> LinkNode(<<"rl">>))
   @@ (<<"A","cw","ra">> :> LinkNode(<<"","A","src">>))
   @@ (<<"A","cw","t">> :> D7) @@ (<<"A","cw","t","e">> :> LinkNode(<<"..","..","ef">>))      \* another root with an external link
@@ -130,6 +131,13 @@ Pres == { <<>>, << [op |-> "parse", lines |-> <<"!x", "y">>, ign |-> FALSE] >>, 
           << [op |-> "parse", lines |-> <<"!x">>, ign |-> FALSE], [op |-> "pack", lines |-> <<>>, ign |-> TRUE] >>,
           << [op |-> "packsame", lines |-> <<>>, ign |-> FALSE] >> }     \* the same Packer value first packs another root (A/cw/t)
 
+\* the source argument itself is a link in a cycle
+CycSpellings == { [cwd |-> <<"A">>, sp |-> <<"la">>], [cwd |-> <<"A">>, sp |-> <<"", "A", "lc">>], [cwd |-> <<"A","cw">>, sp |-> <<"", "A", "lc">>],
+                  [cwd |-> <<"A">>, sp |-> <<"lc", "">>] }
+SpellUs == {"spell", "rootcyc"}
+LegacySpellings == { Canon, [cwd |-> <<"A">>, sp |-> <<"src">>], [cwd |-> <<"A","src">>, sp |-> <<".">>] }
+LegacyPres == { <<>>, << [op |-> "parse", lines |-> <<"!x", "y">>, ign |-> FALSE] >> }
+
 \* Known-finding class for C16: the spelling's last component is a symlink and the
 \* case is not the one shape Pack handles (a single link with an absolute target to
 \* the directory, spelled without trailing segments)
@@ -146,7 +154,7 @@ LineChars == { " ", "!", "#", "/", "*", "\\", "a", "[", "?", "\t" }
 RawLines == { <<c>> : c \in LineChars } \cup { <<c, d>> : c \in LineChars, d \in LineChars }
 RawFiles == { <<l>> : l \in RawLines } \cup { <<l, <<"b">>>> : l \in { <<"!">>, <<" ">>, <<"[">>, <<"a", "[">>, <<"\\">>, <<"!", "[">> } }
 
-Trees == CASE Universe = "spell" -> { SpellTree } [] Universe = "safety" -> SafetyTrees(TL, TK, TM)
+Trees == CASE Universe \in SpellUs -> { SpellTree } [] Universe = "safety" -> SafetyTrees(TL, TK, TM)
            [] Universe = "safetyq" -> SafetyTrees(TLq, TKq, TMq)
            [] Universe = "rt" -> RTTrees
            [] Universe = "judge" -> { ArenaBase }
@@ -160,7 +168,7 @@ OptSets == CASE Universe = "lines" -> { [ign |-> TRUE, deref |-> FALSE, allow |-
              [] OTHER -> { [ign |-> i, deref |-> d, allow |-> {}, allowrel |-> {}] : i \in BOOLEAN, d \in BOOLEAN }
 
 Init == /\ pfs \in Trees
-        /\ rules \in (IF Universe = "lines" THEN RawFiles ELSE IF Universe \in {"safety", "safetyq", "rt", "judge"} THEN { <<>> } ELSE IF Universe = "spell" THEN { SpellRules } ELSE RuleLists)
+        /\ rules \in (IF Universe = "lines" THEN RawFiles ELSE IF Universe \in {"safety", "safetyq", "rt", "judge"} THEN { <<>> } ELSE IF Universe \in SpellUs THEN { SpellRules } ELSE RuleLists)
         /\ call = FALSE /\ res = "none"
 
 Lines(rl) == [i \in DOMAIN rl |-> SpellRule(rl[i])]
@@ -252,27 +260,32 @@ DoPack ==
   /\ UNCHANGED <<pfs, rules>>
 
 DoSpell ==
-  /\ ~call /\ Universe = "spell"
-  /\ \E s \in Spellings, pre \in Pres, conc \in BOOLEAN, ig \in BOOLEAN :
-       LET opts == [ign |-> ig, deref |-> FALSE, allow |-> {}, allowrel |-> { <<"..","ext">> }]
-           r == PackRun(pfs, s.cwd, s.sp, opts, Lines(rules))
-           c == PackRun(pfs, Canon.cwd, Canon.sp, opts, Lines(rules))
-           same == r.st = c.st /\ (c.st = "ok" => r.out = c.out)
-           rec == [fam |-> "pack", tree |-> Snapshot(pfs), src |-> Src, cwd |-> s.cwd, spelling |-> s.sp,
-                   opts |-> opts, rules |-> rules, lines |-> [i \in DOMAIN rules |-> Cat(SpellRule(rules[i]))],
-                   pre |-> pre, conc |-> conc, c16 |-> TRUE,
-                   st |-> r.st, out |-> r.out, canon |-> [st |-> c.st, out |-> c.out],
-                   rt |-> [st |-> "skip", fs |-> {}],
-                   v |-> [c16 |-> same,
-                          w16 |-> (IF r.st # c.st THEN {"status:" \o r.st \o "/" \o c.st} ELSE {})
-                                  \cup (IF c.st = "ok" /\ r.st = "ok" /\ r.out # c.out THEN {"entries-differ-from-canonical"} ELSE {}),
-                          kf16 |-> IF same THEN "" ELSE KF16Class(pfs, s.cwd, s.sp, r.st, r.out, c),
-                          c19 |-> C19Bad(r.st) = {}, w19 |-> C19Bad(r.st), kf19 |-> ""]]
-       IN /\ call' = TRUE /\ res' = r.st
-          /\ PrintT("@@" \o ToJson(rec))
+  /\ ~call /\ Universe \in SpellUs
+  \* api: a Packer value with options, or the package-level Pack(src, w, dereference) (always applies the rule
+  \* file, no allow-list), which is only explored overlapping with another package-level Pack call
+  /\ \E s \in Spellings \cup CycSpellings, pre \in Pres, conc \in BOOLEAN, ig \in BOOLEAN, api \in {"packer", "legacy-deref", "legacy-plain"} :
+       /\ (Universe = "spell" /\ api # "packer" => (conc /\ ig /\ s \in LegacySpellings /\ pre \in LegacyPres))
+       /\ (Universe = "rootcyc" => (s \in CycSpellings /\ pre = <<>> /\ ~conc /\ (api # "packer" => ig)))
+       /\ LET opts == IF api = "packer" THEN [ign |-> ig, deref |-> FALSE, allow |-> {}, allowrel |-> { <<"..","ext">> }]
+                      ELSE [ign |-> TRUE, deref |-> api = "legacy-deref", allow |-> {}, allowrel |-> {}]
+              r == PackRun(pfs, s.cwd, s.sp, opts, Lines(rules))
+              c == PackRun(pfs, Canon.cwd, Canon.sp, opts, Lines(rules))
+              same == r.st = c.st /\ (c.st = "ok" => r.out = c.out)
+              rec == [fam |-> "pack", tree |-> Snapshot(pfs), src |-> Src, cwd |-> s.cwd, spelling |-> s.sp,
+                      opts |-> opts, rules |-> rules, lines |-> [i \in DOMAIN rules |-> Cat(SpellRule(rules[i]))],
+                      pre |-> pre, conc |-> conc, c16 |-> TRUE, api |-> api,
+                      st |-> r.st, out |-> r.out, canon |-> [st |-> c.st, out |-> c.out],
+                      rt |-> [st |-> "skip", fs |-> {}],
+                      v |-> [c16 |-> same,
+                             w16 |-> (IF r.st # c.st THEN {"status:" \o r.st \o "/" \o c.st} ELSE {})
+                                     \cup (IF c.st = "ok" /\ r.st = "ok" /\ r.out # c.out THEN {"entries-differ-from-canonical"} ELSE {}),
+                             kf16 |-> IF same THEN "" ELSE KF16Class(pfs, s.cwd, s.sp, r.st, r.out, c),
+                             c19 |-> C19Bad(r.st) = {}, w19 |-> C19Bad(r.st), kf19 |-> ""]]
+          IN /\ call' = TRUE /\ res' = r.st
+             /\ PrintT("@@" \o ToJson(rec))
   /\ UNCHANGED <<pfs, rules>>
 
-Next == (Universe \notin {"spell", "judge"} /\ DoPack) \/ DoSpell
+Next == (Universe \notin SpellUs \cup {"judge"} /\ DoPack) \/ DoSpell
 Spec == Init /\ [][Next]_pvars
 TypeOK == res \in {"none", "ok", "err", "illegal", "panic", "diverge", "block"}
 =============================================================================
